@@ -1,8 +1,10 @@
 package trie
 
 import (
+	"encoding/binary"
 	"fmt"
 	"testing"
+	"time"
 
 	"github.com/ElrondNetwork/elrond-go/data"
 	kit "github.com/ElrondNetwork/elrond-go/verifkit"
@@ -30,7 +32,10 @@ type verifC01State struct {
 	log     verifTGLog
 	nonTriv bool
 	dirty   bool // updates since the last commit
-	lazy    bool // sparse reads: most steps read only a few keys, so collapsed nodes stay collapsed
+	// value slices handed to Update uncopied under several keys, and the harness' private copies
+	shared     [][]byte
+	sharedCopy [][]byte
+	lazy       bool // sparse reads: most steps read only a few keys, so collapsed nodes stay collapsed
 }
 
 func (s *verifC01State) fail(slug string, format string, args ...interface{}) {
@@ -39,21 +44,70 @@ func (s *verifC01State) fail(slug string, format string, args ...interface{}) {
 
 func (s *verifC01State) put(rt *rapid.T) {
 	k := s.pool.Key(rt, 4)
-	var v []byte
-	if old, ok := s.model[string(k)]; ok && rapid.IntRange(0, 7).Draw(rt, "sameValue") == 0 {
+	old, live := s.model[string(k)]
+	// v is what the model records (private copy); arg is the slice handed to Update. The trie keeps the
+	// slice it is given (values are stored by reference), and callers do hand over slices they also use
+	// elsewhere: update/genesis/import.go passes the storer's slice straight to dataTrie.Update, and a
+	// value read with Get can be written under another key. The harness never modifies such a slice.
+	var v, arg []byte
+	switch kind := rapid.IntRange(0, 15).Draw(rt, "valueKind"); {
+	case kind == 0 && live:
 		v = append([]byte{}, old...) // overwrite with an equal value (no-op path)
 		s.c.Class("op:update-same-value")
-	} else {
+	case kind <= 2 && live:
+		// a different value of exactly the same length as the current one
+		v = make([]byte, len(old))
+		for i := range v {
+			v[i] = old[i] ^ byte(rapid.IntRange(0, 255).Draw(rt, "xor"))
+		}
+		s.c.Class("op:update-same-length")
+	case kind <= 5:
+		// the SAME slice object written under several keys
+		if len(s.shared) < 3 && (len(s.shared) == 0 || rapid.IntRange(0, 2).Draw(rt, "newShared") == 0) {
+			var nv []byte
+			if live && rapid.Bool().Draw(rt, "sharedSameLen") {
+				nv = make([]byte, len(old))
+				for i := range nv {
+					nv[i] = byte(rapid.IntRange(0, 255).Draw(rt, "sb"))
+				}
+			} else {
+				nv = verifTGValue(rt)
+			}
+			s.shared = append(s.shared, nv)
+			s.sharedCopy = append(s.sharedCopy, append([]byte{}, nv...))
+		}
+		i := rapid.IntRange(0, len(s.shared)-1).Draw(rt, "sharedIdx")
+		arg = s.shared[i]
+		v = s.sharedCopy[i]
+		s.c.Class("op:update-shared-slice")
+	case kind == 6 && len(s.model) > 0:
+		// copy the value of another live key: the slice returned by Get is written under k
+		ks := verifTGSortedKeys(s.model)
+		src := ks[rapid.IntRange(0, len(ks)-1).Draw(rt, "copyFrom")]
+		var err error
+		s.c.NoPanic("C01:get-panic", func() { arg, err = s.tr.Get([]byte(src)) })
+		if err != nil || !verifTGEq(arg, s.model[src]) {
+			s.fail("get-mismatch", "Get(%x) = %x (err %v), last written %x", src, arg, err, s.model[src])
+		}
+		v = s.model[src]
+		s.c.Class("op:update-value-read-from-other-key")
+	default:
 		v = verifTGValue(rt)
+	}
+	if arg == nil {
+		arg = append([]byte{}, v...)
 	}
 	s.log.Add("U %x=%x", k, v)
 	var err error
-	s.c.NoPanic("C01:update-panic", func() { err = s.tr.Update(append([]byte{}, k...), append([]byte{}, v...)) })
+	s.c.NoPanic("C01:update-panic", func() { err = s.tr.Update(append([]byte{}, k...), arg) })
 	if err != nil {
 		s.fail("update-error", "Update(%x, %x) returned %v", k, v, err)
 	}
-	if _, ok := s.model[string(k)]; ok {
+	if live {
 		s.c.Class("op:overwrite")
+		if len(old) == len(v) && !verifTGEq(old, v) {
+			s.c.Class("op:overwrite-same-length-different-value")
+		}
 	} else {
 		s.c.Class("op:insert")
 	}
@@ -257,6 +311,201 @@ func TestVerifC01_MapModel(t *testing.T) {
 		})
 }
 
+// verifC01BulkKeys builds n distinct keys: 32-byte hash-like keys (as account addresses) or dense short
+// keys (2 bytes + a common suffix) so that branch nodes are full; values are derived from (salt, i).
+func verifC01BulkKeys(rt *rapid.T, n int) (keys [][]byte, vals [][]byte) {
+	salt := byte(rapid.IntRange(0, 255).Draw(rt, "salt"))
+	hashed := rapid.Bool().Draw(rt, "hashedKeys")
+	mult := 2*rapid.IntRange(0, 200).Draw(rt, "mult") + 1
+	off := rapid.IntRange(0, 65535).Draw(rt, "off")
+	sfxLen := rapid.IntRange(0, 2).Draw(rt, "bulkSuffixLen")
+	h := verifTGPlainHasher()
+	for i := 0; i < n; i++ {
+		var k []byte
+		if hashed {
+			k = h.Compute(fmt.Sprintf("%d/%d", salt, i))
+		} else {
+			k = make([]byte, 2, 2+sfxLen)
+			binary.BigEndian.PutUint16(k, uint16(i*mult+off))
+			for j := 0; j < sfxLen; j++ {
+				k = append(k, salt)
+			}
+		}
+		v := make([]byte, 1+(i+int(salt))%9)
+		for j := range v {
+			v[j] = byte(i) ^ byte(i>>8) ^ salt ^ byte(j*37)
+		}
+		keys = append(keys, k)
+		vals = append(vals, v)
+	}
+	return keys, vals
+}
+
+// TestVerifC01_EnumerateWhileWriting: the enumeration of a committed root is delivered through a
+// channel that the caller drains at its own pace, while the owner of the trie goes on writing
+// (AccountsDB.GetAllLeaves returns the channel after releasing its mutex; process/block/shardblock.go
+// runs commitTrieEpochRootHashIfNeeded -> GetAllLeaves(rootHash) of the just committed root in a go
+// routine while block processing keeps updating the same main trie; the node API does the same for
+// data tries). The channel has capacity 100, so with more than 100 leaves the enumeration is
+// necessarily still in progress when the writes below happen. Whatever the interleaving, the
+// enumeration must equal the map committed under that root, and the working trie must behave as a map.
+func TestVerifC01_EnumerateWhileWriting(t *testing.T) {
+	kit.Run(t, "C01", kit.Budget{Quick: 400, Thorough: 4000},
+		"bulk trie of 5..300 keys (3/4 of cases >100 = more than the leaves channel holds), Commit, GetAllLeavesOnChannel(current root) NOT drained (4/5 of cases), then 1..40 updates/deletes/inserts (optionally a Commit) on the working trie, then drain: enumeration == map committed under that root (both ways), every key reads as last written, also after the next Commit, and the enumerations of the new and of the old root are exact; non-trivial = >100 leaves, delayed drain and >=1 overwrite/delete of a committed key meanwhile; distinct by (n, key kind, op log)",
+		func(rt *rapid.T, c *kit.Case) {
+			hasher := verifTGHasher(rt)
+			level := verifTGLevel(rt, "maxLevel")
+			n := rapid.IntRange(101, 300).Draw(rt, "nLarge")
+			if rapid.IntRange(0, 3).Draw(rt, "small") == 0 {
+				n = rapid.IntRange(5, 100).Draw(rt, "nSmall")
+			}
+			keys, vals := verifC01BulkKeys(rt, n)
+			tr := verifTGNewTrie(rt, verifTGNewTSM(rt), hasher, level)
+			defer func() { _ = tr.Close() }()
+			var log verifTGLog
+			log.Add("n %d level %d firstKey %x", n, level, keys[0])
+			fail := func(slug, format string, args ...interface{}) {
+				c.Violation("C01:enum-while-writing:"+slug, "%s\nhistory: %s", fmt.Sprintf(format, args...), log.String())
+			}
+			model := map[string][]byte{}
+			for i, k := range keys {
+				if err := tr.Update(append([]byte{}, k...), append([]byte{}, vals[i]...)); err != nil {
+					fail("update-error", "Update(%x): %v", k, err)
+				}
+				model[string(k)] = vals[i]
+			}
+			commit := func() []byte {
+				var root []byte
+				var err error
+				c.NoPanic("C01:enum-while-writing:commit-panic", func() {
+					err = tr.Commit()
+					if err == nil {
+						root, err = tr.RootHash()
+					}
+				})
+				if err != nil {
+					fail("commit-error", "Commit/RootHash: %v", err)
+				}
+				return append([]byte{}, root...)
+			}
+			root1 := commit()
+			committed := verifTGCopyModel(model)
+			log.Add("C")
+
+			delayed := rapid.IntRange(0, 4).Draw(rt, "delayedDrain") > 0
+			ch, err := tr.GetAllLeavesOnChannel(root1)
+			if err != nil {
+				fail("leaves-error", "GetAllLeavesOnChannel(%x) of the just committed root: %v", root1, err)
+			}
+			var got []verifTGPair
+			drain := func() {
+				for kv := range ch {
+					got = append(got, verifTGPair{append([]byte{}, kv.Key()...), append([]byte{}, kv.Value()...)})
+				}
+			}
+			touchedCommitted := false
+			extra := [][]byte{}
+			if !delayed {
+				drain()
+				log.Add("drain")
+			} else if n > cap(ch) && rapid.Bool().Draw(rt, "waitUntilFull") {
+				// scheduling aid only (no oracle depends on it): let the producer fill the channel
+				for i := 0; i < 400 && len(ch) < cap(ch); i++ {
+					time.Sleep(25 * time.Microsecond)
+				}
+			}
+			nOps := rapid.IntRange(1, 40).Draw(rt, "nOps")
+			for i := 0; i < nOps; i++ {
+				switch op := rapid.IntRange(0, 9).Draw(rt, "op"); {
+				case op <= 5: // overwrite a committed key (same or other length)
+					k := keys[rapid.IntRange(0, n-1).Draw(rt, "keyIdx")]
+					v := verifTGValue(rt)
+					if old, ok := model[string(k)]; ok && rapid.Bool().Draw(rt, "sameLen") {
+						v = make([]byte, len(old))
+						for j := range v {
+							v[j] = old[j] ^ byte(1+i+j)
+						}
+					}
+					log.Add("U %x=%x", k, v)
+					if err = tr.Update(append([]byte{}, k...), append([]byte{}, v...)); err != nil {
+						fail("update-error", "Update(%x): %v", k, err)
+					}
+					model[string(k)] = v
+					touchedCommitted = true
+				case op <= 7: // delete a committed key
+					k := keys[rapid.IntRange(0, n-1).Draw(rt, "keyIdx")]
+					log.Add("D %x", k)
+					if err = tr.Delete(append([]byte{}, k...)); err != nil {
+						fail("delete-error", "Delete(%x): %v", k, err)
+					}
+					if _, ok := model[string(k)]; ok {
+						touchedCommitted = true
+					}
+					delete(model, string(k))
+				case op == 8: // insert a key derived from a committed one (prepend a byte)
+					k := append([]byte{byte(rapid.IntRange(0, 255).Draw(rt, "pre"))}, keys[rapid.IntRange(0, n-1).Draw(rt, "keyIdx")]...)
+					v := verifTGValue(rt)
+					log.Add("U %x=%x", k, v)
+					if err = tr.Update(append([]byte{}, k...), append([]byte{}, v...)); err != nil {
+						fail("update-error", "Update(%x): %v", k, err)
+					}
+					model[string(k)] = v
+					extra = append(extra, k)
+				default:
+					log.Add("C")
+					_ = commit()
+				}
+			}
+			if delayed {
+				drain()
+				log.Add("drain")
+			}
+			if slug, msg := verifTGCompareLeaves(got, committed); slug != "" {
+				fail(slug, "enumeration of committed root %x (delayed drain %v): %s", root1, delayed, msg)
+			}
+			readAll := func(when string) {
+				for _, k := range append(append([][]byte{}, keys...), extra...) {
+					v, gerr := tr.Get(append([]byte{}, k...))
+					if gerr != nil {
+						fail("get-error", "%s: Get(%x): %v", when, k, gerr)
+					}
+					if !verifTGEq(v, model[string(k)]) {
+						fail("get-mismatch", "%s: Get(%x) = %x, last written %x", when, k, v, model[string(k)])
+					}
+				}
+			}
+			readAll("after the enumeration")
+			root2 := commit()
+			log.Add("C")
+			readAll("after the next commit")
+			for _, e := range []struct {
+				root []byte
+				m    map[string][]byte
+				who  string
+			}{{root2, model, "new root"}, {root1, committed, "old root"}} {
+				lv, lerr := verifTGLeaves(tr, e.root)
+				if lerr != nil {
+					fail("leaves-error", "%s %x: %v", e.who, e.root, lerr)
+				}
+				if slug, msg := verifTGCompareLeaves(lv, e.m); slug != "" {
+					fail(slug, "%s %x: %s", e.who, e.root, msg)
+				}
+			}
+			if delayed {
+				c.Class("drain:delayed")
+			} else {
+				c.Class("drain:immediate")
+			}
+			if n > 100 {
+				c.Class("leaves>channel-capacity")
+			}
+			if delayed && n > 100 && touchedCommitted {
+				c.NonTrivial(log.String())
+				c.Sample("%s", log.String())
+			}
+		})
+}
+
 // TestVerifC01_Regress: fixed shapes that exercise reduceNode on every kind of remaining child
 // (leaf, extension, branch, child 16) before and after a commit; run in every tier.
 func TestVerifC01_Regress(t *testing.T) {
@@ -322,6 +571,69 @@ func TestVerifC01_Regress(t *testing.T) {
 					}
 				}
 			}
+		}
+	}
+}
+
+// TestVerifC01_Regress2: (1) one value slice written under two keys, one of them overwritten with
+// another value of the same length; (2) 300 keys, the current committed root enumerated but drained
+// only after every key was overwritten.
+func TestVerifC01_Regress2(t *testing.T) {
+	kit.Silence()
+	tr, err := verifTGPlainTrie(5)
+	if err != nil {
+		t.Fatalf("fixture: %v", err)
+	}
+	shared := []byte("value-AAAA")
+	_ = tr.Update([]byte("doe"), []byte("reindeer"))
+	_ = tr.Update([]byte("dog"), shared)
+	_ = tr.Update([]byte("ddog"), shared)
+	_ = tr.Update([]byte("dog"), []byte("value-BBBB"))
+	if v, _ := tr.Get([]byte("ddog")); string(v) != "value-AAAA" {
+		kit.FailPlain(t, "C01", "C01:get-mismatch", "Get(ddog) = %q after overwriting dog (same slice written under both), last written value-AAAA", v)
+	}
+	if v, _ := tr.Get([]byte("dog")); string(v) != "value-BBBB" {
+		kit.FailPlain(t, "C01", "C01:get-mismatch", "Get(dog) = %q, last written value-BBBB", v)
+	}
+
+	tr, err = verifTGPlainTrie(5)
+	if err != nil {
+		t.Fatalf("fixture: %v", err)
+	}
+	h := verifTGPlainHasher()
+	committed, model := map[string][]byte{}, map[string][]byte{}
+	var keys [][]byte
+	for i := 0; i < 300; i++ {
+		k := h.Compute(fmt.Sprint(i))
+		keys = append(keys, k)
+		_ = tr.Update(k, []byte{byte(i), 1})
+		committed[string(k)] = []byte{byte(i), 1}
+	}
+	_ = tr.Commit()
+	root, _ := tr.RootHash()
+	ch, err := tr.GetAllLeavesOnChannel(root)
+	if err != nil {
+		kit.FailPlain(t, "C01", "C01:enum-while-writing:leaves-error", "%v", err)
+		return
+	}
+	for i := 0; i < 400 && len(ch) < cap(ch); i++ {
+		time.Sleep(25 * time.Microsecond)
+	}
+	for i, k := range keys {
+		_ = tr.Update(k, []byte{byte(i), 2, 2})
+		model[string(k)] = []byte{byte(i), 2, 2}
+	}
+	var got []verifTGPair
+	for kv := range ch {
+		got = append(got, verifTGPair{append([]byte{}, kv.Key()...), append([]byte{}, kv.Value()...)})
+	}
+	if slug, msg := verifTGCompareLeaves(got, committed); slug != "" {
+		kit.FailPlain(t, "C01", "C01:enum-while-writing:"+slug, "%s", msg)
+	}
+	_ = tr.Commit()
+	for _, k := range keys {
+		if v, _ := tr.Get(k); !verifTGEq(v, model[string(k)]) {
+			kit.FailPlain(t, "C01", "C01:enum-while-writing:get-mismatch", "Get(%x) = %x, last written %x", k, v, model[string(k)])
 		}
 	}
 }
